@@ -525,7 +525,7 @@ def run(ctx: lib.Ctx) -> None:
         ctx.corpus_cases += 1
     for t in FIXED_TYPES:
         add_type(t, 8, 'fixed')
-    ntypes = ctx.n(200, 2400)
+    ntypes = ctx.n(350, 6000)
     for i in range(ntypes):
         depth = rng.choice([1, 1, 2, 2, 3, 3, 4, 5])
         k = rng.random()
